@@ -93,6 +93,66 @@ CHECKS = {
         'each to the string / select the member named by it; plus JSON values between backticks, preserved raw-string escapes and '
         'ill-formed surrogate escapes.',
    note='Length bounded; numbers inside JSON literals are small here (C05 covers long ones).'),
+ 'C03': dict(
+   level='model_checking', ref='DESIGN.md 6 (C03)',
+   technique='every TLC-generated case doubles as a no-panic case (a panic is outside every admissible set); dedicated hostile-value, byte-level and nesting generators; child-process isolation attributes crashes and hangs',
+   text='GenHostile puts 33 kinds of non-JSON / non-finite Go values at every leaf position under 81 expressions; GenChars over a byte-level '
+        'alphabet (invalid UTF-8, NUL, quotes, backslashes, multi-byte characters) compiles every short concatenation; nesting families are '
+        'scaled to 2x10^5 (quick) / 5x10^6 (thorough) levels; GenCall and GenCost add every function argument tuple and 64-bit magnitudes. '
+        'All cases run in worker processes with a watchdog so that a fatal runtime error or a hang is attributed to its input.',
+   note='"All Go values" and "any length" are sampled by representative kinds and depths.'),
+ 'C06': dict(
+   level='model_checking', ref='DESIGN.md 6 (C06), 3.7',
+   technique='API.tla state machine (Compile/MustCompile/Search/Expression.Search/FeedBack) explored by TLC; every history replayed into the real API with deep snapshots',
+   text='TLC enumerates every history of the API machine within the bound (and random longer ones), checks Immutable (action property), Pure, '
+        'StaticAtCompile, StaticIgnoresDoc and Closed on the model, and the harness replays each history: snapshots of all documents '
+        '(including spare slice capacity) and all earlier results are compared after every call; Expression.Search is compared with the '
+        'specification and with a fresh one-shot Search; MustCompile must panic exactly when Compile fails.',
+   note='Histories bounded to 3 calls exhaustively (8 by simulation) over a fixed pool of 16 texts and 3 documents.'),
+ 'C07': dict(
+   level='model_checking', ref='DESIGN.md 6 (C07), 4.5',
+   technique='APIConc.tla interleavings enumerated by TLC and replayed into real goroutines gated by the evaluate-entry hook; the same call sets ungated under the Go race detector',
+   text='APIConc splits every call into gate-delimited segments and TLC enumerates all interleavings of the goroutines; each complete schedule is '
+        'replayed with the verif step hook as scheduler gate and every outcome is compared with the outcome the call has alone; the call sets '
+        'also run ungated from 8 goroutines in a -race build (a race report is a violation).',
+   note='Schedule control is at evaluate-entry granularity; data races are found only on code the chosen call sets execute.'),
+ 'C08': dict(
+   level='model_checking', ref='DESIGN.md 6 (C08)',
+   technique='single-fault catalogue and generated failing calls with spec-computed categories; API machine checks static faults at Compile only; harness checks nil result / exactly one sentinel',
+   text='GenFault holds one template per static fault class and per run-time fault site (TLC checks each has a single admissible category '
+        'and that static ones ignore the document); every template runs on every pool document; GenCall contributes all failing calls and '
+        'API.tla the Compile / Expression.Search split. On every failure the harness requires a nil result, exactly one matching exported '
+        'category, the specified category, and a formattable error.',
+   note='Multi-fault expressions admit every category present.'),
+ 'C09': dict(
+   level='exploration', ref='DESIGN.md 6 (C09), 8',
+   technique='model-derived inputs (integer parameter positions x 64-bit magnitudes, nesting families) with expected outcomes; time, allocation and evaluator steps measured on the real code against a twin input',
+   text='Running time is not a model property. GenCost supplies every integer parameter position at magnitudes up to 2^63-1 together with the '
+        'twin magnitude 1000 (same outcome by the TLC-checked huge-magnitude lemma); the harness requires equal evaluator steps and time / '
+        'allocation within a generous factor of the twin, scales 8 nesting families and requires at most ~quadratic growth, and runs all of it '
+        'under a per-case watchdog. LexMachine checks strict progress of the tokeniser on the model.',
+   note='Measurement-based: thresholds are generous to avoid flakiness (50x time, 8x allocation); a timeout counts only if it reproduces in a fresh process.'),
+ 'C14': dict(
+   level='model_checking', ref='DESIGN.md 6 (C14)',
+   technique='carrier-independence is structural in the spec (Eval has no carrier input); TLC enumerates values x carrier assignments x expressions, replayed with each Go numeric kind',
+   text='GenCarrier emits, for every pair of pool values and every assignment of 16 number carriers (json.Number in three spellings, all integer '
+        'kinds, float32/64, decimal) to the number leaves, 53 expressions (arithmetic, comparison, sorting, truthiness, type, integer-argument '
+        'positions) with the one outcome the specification assigns; the harness builds the document with those Go types and compares.',
+   note='Values are chosen so that every intermediate is exactly representable; assignments that cannot hold a value are skipped and counted.'),
+ 'C15': dict(
+   level='model_checking', ref='DESIGN.md 6 (C15), 3.5',
+   technique='order marks on arrays obtained from object members in the spec; generated cases re-evaluated repeatedly on rebuilt maps with fresh compilations',
+   text='The specification marks arrays whose order is unspecified and makes order-sensitive uses of them Open; every case of GenSurface (on '
+        'documents with 2-3-member objects), GenCall and GenLet is evaluated 8 (quick) / 64 (thorough) times with independently rebuilt maps '
+        'and fresh compilations; all outcomes must be equal, as multisets only at marked arrays.',
+   note='Unpinned (Open) cases are exempt, since the property permits their variation.'),
+ 'C18': dict(
+   level='model_checking', ref='DESIGN.md 6 (C18)',
+   technique='pipe law checked on the model; result of e1 fed back as Go value into e2 and compared with (e1)|(e2) and the spec; JSON type walk and encoding/json round trip on every result',
+   text='GenPipe pairs 29 result-producing expressions with 24 consumers on 15 documents; the harness searches e1, requires plain JSON data that '
+        'survives json.Marshal/decode unchanged, feeds the Go value itself into e2 and compares with (e1) | (e2) and with the specification; '
+        'API.tla histories add FeedBack of results as documents of later calls.',
+   note='Pool-bounded.'),
 }
 
 ALL = ['C%02d' % i for i in range(1, 21)]
